@@ -638,6 +638,16 @@ def r_frame_assign_container(c):
     Br = elems(c.b[::-1])
     o.arr(fcol(f, 0), [B[0], A[1], B[2]], "loc[rows, ['x','x2']](Frame):x").arr(fcol(f, 1), [Br[0], A2[1], Br[2]], "loc[rows, ['x','x2']](Frame):x2")
     _untouched_frame(o, f, c.a, skip=('x', 'x2'))
+    # value Frame whose columns are separate blocks of different dtypes (first = target dtype, second = other kind),
+    # assigned to a subset of the rows: every value block must take part in the dtype of the assigned region
+    val = sf.Frame.from_items([('x', c.a), ('x2', c.b)], index=IDX)
+    f = mk_frame(c.a, c.lay).assign.loc[['a', 'c'], ['x', 'x2']](val)
+    o.arr(fcol(f, 0), [A[0], A[1], A[2]], "loc[rows, ['x','x2']](Frame mixed):x").arr(fcol(f, 1), [B[0], A2[1], B[2]], "loc[rows, ['x','x2']](Frame mixed):x2")
+    _untouched_frame(o, f, c.a, skip=('x', 'x2'))
+    val = sf.Frame.from_items([('x', c.b), ('x2', c.a)], index=IDX)
+    f = mk_frame(c.a, c.lay).assign.iloc[1:, 0:2](val.iloc[1:])
+    o.arr(fcol(f, 0), [A[0], B[1], B[2]], "iloc[1:, 0:2](Frame mixed):x").arr(fcol(f, 1), [A2[0], A[1], A[2]], "iloc[1:, 0:2](Frame mixed):x2")
+    _untouched_frame(o, f, c.a, skip=('x', 'x2'))
     return o
 
 
